@@ -954,6 +954,45 @@ def exact_boundary_model(rng, target, variant, nr=None, dlpoly=False, shared=Fal
   return model, k
 
 
+NEAR_ROW_GRIDS = {False: [(8.0, 1601), (10.0, 101), (10.0, 1001), (12.5, 251), (6.0, 601), (7.3, 74), (9.9, 991), (5.0, 51), (8.0, 801), (12.0, 1201)],
+                  True: [(10.0, 1004), (8.0, 804), (12.0, 2404), (6.5, 264), (10.0, 504), (7.5, 1504), (9.0, 904), (15.0, 3004)]}
+NEAR_ROW_VARIANTS = ["below_row", "above_row", "last_row_at_cutoff", "table_ends_at_cutoff"]
+
+
+def near_row_boundary_model(rng, target, variant, which, dlpoly=False):
+  """Decimal grids (the step is NOT exact in doubles).  A discontinuity 8 ulps below / above an upper row k: whichever
+  rounding of k*step a writer uses, row k is on a definite side - unless its separations drift (a running sum
+  r += step is tens of ulps off after a few hundred rows).  LAMMPS only: a discontinuity just above the cutoff, or
+  table data ending exactly AT the cutoff - the last row is the declared 'hi' itself and belongs to the inner side.
+  Returns (model, k): row k (1-based) is judged strictly."""
+  import math
+  grids = NEAR_ROW_GRIDS[bool(dlpoly)]
+  cutoff, nr = grids[which % len(grids)]
+  nrows = nr if dlpoly else nr - 1
+  step = cutoff / (nr - 4) if dlpoly else cutoff / (nr - 1)
+  inner = {"k": "form", "name": "polynomial", "p": [rfloat(rng, 1.0, 5.0), rfloat(rng, -0.2, -0.05), rfloat(rng, 0.001, 0.01)]}
+  outer = rng.choice([{"k": "form", "name": "zero", "p": []}, {"k": "form", "name": "constant", "p": [rfloat(rng, 70.0, 90.0)]}])
+  tables = []
+  if variant == "last_row_at_cutoff":
+    k = nr - 1
+    node = {"k": "ranges", "parts": [[">", 0.0, inner], [">", cutoff, outer]]}
+  elif variant == "table_ends_at_cutoff":
+    k = nr - 1
+    n = rng.choice([5, 9, 17])
+    xs = [cutoff * i / (n - 1) for i in range(n)]
+    xs[-1] = cutoff
+    tables = [{"name": "gridtab", "x": xs, "y": [rfloat(rng, 1.0, 2.0, 4) for _ in xs], "as": rng.choice(["xy", "x_y"])}]
+    node = {"k": "table", "name": "gridtab"}
+  else:
+    k = rng.randint((2 * nrows) // 3, nrows - 1)
+    rk = k * step
+    for _ in range(8):
+      rk = math.nextafter(rk, 0.0 if variant == "below_row" else math.inf)
+    node = {"k": "ranges", "parts": [[">", 0.0, inner], [">=" if variant == "below_row" else ">", rk, outer]]}
+  model = {"type": "pair", "target": target, "tab": {"nr": nr, "cutoff": cutoff}, "forms": [], "tables": tables, "pair": [["Ar", "Kr", node]]}
+  return model, k
+
+
 EXACT_BOUNDARY_VARIANTS = ["first:>", "first:>=", "middle:>", "middle:>=", "last:>", "last:>=", "grid:table"]
 
 
